@@ -264,6 +264,18 @@ def observe(src):
         rec["output"] = out[:600]
         return rec
     yp = real.YP()
+    # the application has Python predicates of its own; where a head of the program is named like the key one
+    # of them has in the engine (tag_1 next to tag/1, foo_n next to a variadic foo) it is registered first
+    plain = real.YP()
+    for n, k in src.heads:
+        m = re.match(r"(.+)_(\d|n)$", n)
+        if m:
+            def nat(*args):
+                yield False
+            try:
+                yp.register_function(m.group(1), nat, arity=-1 if m.group(2) == "n" else int(m.group(2)))
+            except Exception:
+                pass
     before = set(yp.eval_context)
     del AUDIT[:]
     _AUDIT_ON[0] = True
@@ -298,6 +310,32 @@ def observe(src):
                     ok = False
                     rec["why"] = "query %s/%d: %s: %s" % (n, k, type(e).__name__, str(e)[:60])
                 rec["callable"].append(ok)
+            if set(yp.eval_context) - set(plain.eval_context) - set(new):
+                # ... and its predicates answer as they do in an engine without those Python predicates
+                try:
+                    plain.load_script_from_string(out, fn="<verif-load>")
+                    for i, (n, k) in enumerate(src.heads):
+                        cnt = []
+                        for e in (yp, plain):
+                            replay.BUDGET.arm(200000)
+                            try:
+                                c = 0
+                                q = e.query(n, [e.variable() for _ in range(k)])
+                                for _ in q:
+                                    c += 1
+                                    if c >= 3:
+                                        break
+                                q.close()
+                            except (replay.BudgetExceeded, RecursionError, Exception):
+                                c = -1
+                            finally:
+                                replay.BUDGET.disarm()
+                            cnt.append(c)
+                        if cnt[0] != cnt[1] and -1 not in cnt:
+                            rec["callable"][i] = False
+                            rec["why"] = "%s/%d has %d answers, %d in an engine without the application's Python predicates" % (n, k, cnt[0], cnt[1])
+                except Exception:
+                    pass
         if rec["load_ok"]:
             # the documented file route: the same output written to a file (UTF-8) and loaded with
             # load_script_from_file must define the same predicates with the same answers
